@@ -91,7 +91,7 @@ def render(c, key, seed_shape):
         pre = f"{al} = " if al else ""
         dargs.append(pre + d)
         rargs.append(pre + r)
-    attr = f"#[{ATTR[D]}({vlib.rust_str(lit)}" + "".join(", " + x for x in dargs) + ")]"
+    attr = f"#[{ATTR[D]}({vlib.rust_lit(lit)}" + "".join(", " + x for x in dargs) + ")]"
     companion = None
     if shape == "variant":
         # an attribute-less single-field variant FOLLOWS the attributed one: it prints as its field does (Debug: as std)
